@@ -31,7 +31,7 @@ EXTRA = [
     (r"a*?b", 0), (r"(a|ab)(c|bcd)(d*)", 0), (r"a{2,3}?a", 0), (r"(?:ab){1,2}b?", 0), (r"x*(?<!a)b", 0),
     (r"^a+$", re.M), (r"^a+$", 0), (r"a.c", 0), (r"a.c", re.S), (r"\Ba\B", 0), (r"[a-c\s]+\b", 0),
     (r"(?=ab)a|b+", 0), (r"[^\S\n]+", 0), (r"(a+)+b", 0), (r"(?<=ab)c|.b", 0), (r"True|[b-d]+", re.I),
-    (r"[^a]b", re.I), (r"\d+\s\w", 0), (r"(\d*)?x", 0), (r"(a?){2}b", 0), (r".*?$", re.M), (r"(.|\n)*?b", 0),
+    (r"[^a]b", re.I), (r"ab\b", re.I), (r"Ab1\b", 0), (r"(?:ab|C)+\b.", re.I), (r"\d+\s\w", 0), (r"(\d*)?x", 0), (r"(a?){2}b", 0), (r".*?$", re.M), (r"(.|\n)*?b", 0),
 ]
 ALPHA_X = ["a", "b", "c", "d", "\n", " "]
 
@@ -383,7 +383,7 @@ def gen_rx_groups(chk):
                 continue
             alpha = ALPHA_S + ["/", "*"] if ("'" in pat or '"' in pat or "/" in pat) else ALPHA_N + ["_", " "]
             add((None, pat, re.M, "(%s)" % term), alpha, 4 if chk.thorough else 3, [rnd(alpha + UNI, nr // 2, 3, 14, "lg" + fn)])
-    xr = rnd(ALPHA_X + ["T", "r", "u", "e", "B", "1", "_"], nr, 3, 14, "xr")
+    xr = rnd(ALPHA_X + ["T", "r", "u", "e", "B", "1", "_", "A", "C"], nr, 3, 14, "xr")
     for pat, flags in EXTRA:
         add((None, pat, flags, "(%s)" % regex_tr.coq_of_pattern(pat)), ALPHA_X, 5 if chk.thorough else 3, [xr] + ([ascii1] if "\\" in pat else []))
     return jobs, groups
@@ -609,10 +609,46 @@ def _t(chk, label):
         chk.cov.setdefault("phase_wall_s", {})[label] = round(time.time() - chk.t0, 1)
 
 
+def rx_lit_then_text(lit, tail):
+    out = tail
+    for ch in reversed(lit):
+        out = "(RSeq (RChr %d%%N) %s)" % (ord(ch), out)
+    return out
+
+
+def library_checks(chk, disagreements):
+    """(1) the translator emits literal / keyword patterns in the shape of Rx.rx_lit / Rx.rx_kw (the shape the library
+    theorems are about); (2) the cross-validation theorem with the C21 keyword model still builds and is closed."""
+    import os
+    for kw in ["if", "begin_x", "Ab9", "x"]:
+        got = regex_tr.coq_of_pattern(re.escape(kw) + r"\b")
+        want = rx_lit_then_text(kw, "(RWordB false)")
+        if got != want:
+            disagreements.append({"case": "translator shape of keyword pattern %r" % kw, "impl": got, "model": want})
+        got = regex_tr.coq_of_pattern(re.escape(kw))
+        want = rx_lit_then_text(kw[:-1], "(RChr %d%%N)" % ord(kw[-1]))
+        if got != want:
+            disagreements.append({"case": "translator shape of literal pattern %r" % kw, "impl": got, "model": want})
+    if os.path.exists(os.path.join(core.COQ, "Model", "Kw.v")):
+        ok, log = core.coq_make(["Proofs/RxKwProofs.vo"])
+        if ok:
+            # Print Assumptions output is in the log when the file was (re)compiled; an up-to-date .vo was checked when built
+            closed = "Axioms:" not in log
+            chk.cov["cross_validation_kw"] = "rx_kw_agrees_with_kw_match: proved" + (", closed" if closed else ", WITH AXIOMS")
+            if not closed:
+                disagreements.append({"case": "Proofs/RxKwProofs.v depends on axioms", "model": log[-1500:]})
+        elif 'File "./Proofs/RxKwProofs.v"' in log:
+            chk.cov["cross_validation_kw"] = "rx_kw_agrees_with_kw_match: FAILED"
+            disagreements.append({"case": "Proofs/RxKwProofs.v (cross-validation with Model/Kw.v) no longer checks", "model": log[-1500:]})
+        else:
+            chk.cov["cross_validation_kw"] = "skipped: Model/Kw.v or its dependencies do not build on this tree"
+
+
 def run(chk):
     chk.prove([regex_tr.translate, basetype_tr.translate])
     _t(chk, "prove")
     disagreements, failures = [], []
+    library_checks(chk, disagreements)
 
     cases = gen_load_cases(chk)
     jobs, groups = gen_rx_groups(chk)
